@@ -61,6 +61,10 @@ CHECKS = {
    text="Each backend-neutral (spec, table) is built for pandas and for polars and validated lazily by both real backends: verdicts, frame-level errors, dtype/coercion error columns, failing cells (column, row position) and the parsed output (columns, order, logical dtype, values up to the null representation) must agree; without parsing options the verdict is also compared with the reference model so that a bug shared by both backends is seen.",
    note="Excluded as engine-representation artefacts (generated, counted, not judged): nulls in numpy int/bool columns, casts from text to datetime/bool, empty/all-null columns of a foreign physical type, >=2 nulls under unique, joint uniqueness over nulls; features the polars docs declare unsupported.",
    ref="4/C08"),
+ "C17": dict(cat="exploration", tech="reference-wrapper oracle + metamorphic variants over generated decorated programs with instrumented bodies (did the body run, what did it receive)",
+   text="Runs the real check_input / check_output / check_io / check_types on 2 000 (quick) / 60 000 (thorough) generated programs: 13 signature templates (defaults, *args, **kwargs, keyword-only, positional-only), pandas and polars schemas or plain-annotation models, valid / coercible / invalid / invalid-only-outside-head-tail frames, head/tail/sample/lazy/inplace, bodies that return the input, a new frame, a container, or raise. Each program runs in 6-10 equivalent variants (designation none/int/str x function/method/classmethod/staticmethod x positional/keyword call x sync/async); an instrumented body records whether it ran and what it received. Each variant is compared with a reference wrapper written from the statement (validate the designated inputs with the decorator's options via schema.validate; run the body iff all accepted, with the parsed objects; validate outputs; otherwise the same return/exception and caller-frame state) and the variants of one scenario with each other.",
+   note="Trusted: schema.validate (C01-C03) and the reference wrapper pvm/c17_gen.py:reference. Counted, not judged: a frame whose accessor carries an equal schema but was modified afterwards; async check_output returning the unparsed object; which Union member parses; which error is reported when several inputs are invalid. Not exercised: with_pydantic, Series[...]/Index[...] annotations (numpy 2.5 sandbox limit), polars LazyFrame annotations, from_format/to_format, pyspark/modin/dask frames.",
+   ref="4/C17"),
  "C18": dict(cat="exploration", tech="stack-model monitor of config_context programs, fresh-interpreter env-var matrix, metamorphic depth relations on real validate",
    text="Every config_context nesting of depth <= 2 over all option settings x exception shapes (exhaustive), plus sampled depth 3-4 programs with real validate calls, is compared step by step with a pure-Python save-stack model; the PANDERA_* environment matrix (108 settings; quick 16) is observed in fresh interpreters; for generated null-free (schema, data) the verdicts under SCHEMA_ONLY / DATA_ONLY / full are compared with the documentation-restricted schema at full depth on pandas, polars DataFrame and LazyFrame, including the polars defaults and 'disabled returns the argument'.",
    note="Schema-level vs data-level taken from docs/source/configuration.md, error_report.md, polars.md; nullability, coercion and defaults under depth not judged; documented env spellings only; single-threaded (C07 covers threads).",
